@@ -31,8 +31,9 @@ R5  segments_polygon            crossing segments: d = 0 and cp lies in the poly
                                 In-plane segments with one end point inside: the returned point is the end point the in-polygon test accepted.
                                 The matrix returned by project_plane_matrix is an exact rational rotation in the quick tier and the symbolic
                                 Cayley rotation (R R^T = I identically) in the thorough tier; the points and the polygon are symbolic in both.
-R6  segment_set                 the all-pairs wrapper: d[i, j] = d[j, i] = distance of the pair from segment_segment_set, cp[i, j] on i,
-                                cp[j, i] on j, cp[i, i] on segment i.
+R6  segment_set                 the all-pairs wrapper (segment_segment_set summarised by its R3 contract): every pair is computed, d[i, j] is the
+                                kernel's distance of the pair, d is symmetric, cp[i, j] is the kernel's point ON i and cp[j, i] its point ON j
+                                (outputs neither swapped nor transposed), d[i, i] = 0 and cp[i, i] lies on segment i; two and three segments.
 R7  no-effect normalisation     an expression statement that calls a value-returning array method (reshape, ravel, ...) and drops the
                                 result normalises nothing (sibling functions bind the result).
 Not decided: floating-point accuracy, the tolerance constants (SMALL_TOLERANCE, tol), zero-length segments, which of several
@@ -74,7 +75,7 @@ META = {
     "level_note": "Decides, on the listed paths, that the returned closest points lie on their objects, that the distance is the distance between the "
                   "returned points and that the first-order optimality identities hold; nothing about floating point or tolerances.",
 }
-MIN_INSTANCES = {"R1": 12, "R2": 30, "R3": 100, "R4": 20, "R5": 14, "R6": 1, "R7": 7}
+MIN_INSTANCES = {"R1": 12, "R2": 30, "R3": 100, "R4": 20, "R5": 14, "R6": 8, "R7": 7}
 
 
 # ------------------------------------------------------------------------------------------------------
@@ -745,19 +746,40 @@ def _r6(repo, rec: Rec) -> None:
         rec.check("R6", False, DI, q, "the result is not (distances (n, n), closest points (n, n, nd))", f"{q}: shapes [{lab}]")
         return
     d, cp = out
-    terms = []
+    t_dist, t_sym, t_cp = [], [], []
     for i in range(ns):
         for j in range(i + 1, ns):
             if (i, j) not in table:
                 rec.check("R6", False, DI, q, f"the pair ({i}, {j}) is never handed to segment_segment_set", f"{q}: all pairs are computed [{lab}]")
                 return
             D, Ci, Cj = table[(i, j)]
-            terms += [sp.sympify(d[i, j]) - D, sp.sympify(d[j, i]) - D] + [cp[i, j, r] - Ci[r] for r in range(nd)] + [cp[j, i, r] - Cj[r] for r in range(nd)]
-    _ident(rec, "R6", sc, q, lab, "d[i, j] = d[j, i] = pair distance; cp[i, j] is the point on i closest to j and cp[j, i] the point on j", terms)
+            t_dist += [sp.sympify(d[i, j]) - D]
+            t_sym += [sp.sympify(d[i, j]) - sp.sympify(d[j, i])]
+            t_cp += [cp[i, j, r] - Ci[r] for r in range(nd)] + [cp[j, i, r] - Cj[r] for r in range(nd)]
+    rec.check("R6", True, DI, q, f"every pair (i, j), i < j, is handed to segment_segment_set ({len(table)} pairs)", f"{q}: all pairs are computed [{lab}]")
+    _ident(rec, "R6", sc, q, lab, "d[i, j] is the distance segment_segment_set returns for the pair (i, j)", t_dist)
+    _ident(rec, "R6", sc, q, lab, "the distance matrix is symmetric", t_sym)
+    _ident(rec, "R6", sc, q, lab, "cp[i, j] is the kernel's point ON segment i closest to j, cp[j, i] its point ON segment j (outputs not swapped, not transposed)", t_cp)
     diag = []
     for i in range(ns):
         diag += [d[i, i]] + _cross([cp[i, i, r] - S[r, i] for r in range(nd)], [E[r, i] - S[r, i] for r in range(nd)])
-    _ident(rec, "R6", sc, q, lab, "d[i, i] = 0 and cp[i, i] lies on segment i", diag)
+    _ident(rec, "R6", sc, q, lab, "d[i, i] = 0 and cp[i, i] lies on the carrier line of segment i", diag)
+    tpar = [_dotp([cp[i, i, r] - S[r, i] for r in range(nd)], [E[r, i] - S[r, i] for r in range(nd)]) / _dotp([E[r, i] - S[r, i] for r in range(nd)], [E[r, i] - S[r, i] for r in range(nd)]) for i in range(ns)]
+    for i in range(ns):
+        _num_ok(rec, "R6", sc, q, f"{lab}, segment {i}", "cp[i, i] lies between the end points of segment i", tpar[i], lambda v: 0 <= v <= 1)
+    # two segments only (the smallest all-pairs case: the tail slices have one column)
+    S2, E2 = S[:, :2].copy(), E[:, :2].copy()
+    table.clear()
+    sc2 = Scen(repo, {k_: v_ for k_, v_ in wit.items()}, {"segment_segment_set": ss_stub}, tag="C30")
+    lab2 = "two symbolic segments"
+    ok, out = _run(rec, q, lab2, lambda: sc2.call(DI, q, [S2, E2]), shape_is_finding="the all-pairs wrapper cannot be executed", rule="R6")
+    if ok and isinstance(out, tuple) and len(out) == 2 and isinstance(out[0], np.ndarray) and out[0].shape == (2, 2) and (0, 1) in table:
+        d2, cp2 = out
+        D, Ci, Cj = table[(0, 1)]
+        _ident(rec, "R6", sc2, q, lab2, "d and cp of the single pair agree with segment_segment_set in both orders",
+               [sp.sympify(d2[0, 1]) - D, sp.sympify(d2[1, 0]) - D] + [cp2[0, 1, r] - Ci[r] for r in range(nd)] + [cp2[1, 0, r] - Cj[r] for r in range(nd)])
+    elif ok:
+        rec.check("R6", False, DI, q, "for two segments the result is not (2 x 2 distances, 2 x 2 x nd points) computed from the one pair", f"{q}: single pair [{lab2}]")
 
 
 # ------------------------------------------------------------------------------------------------------
@@ -811,13 +833,13 @@ def _m(name, old, new, rule, control=False, count=1):
 MUTANTS = [
     # point_pointset / pointset
     _m("pointset-sum-over-points-axis", "        np.sum(np.power(np.abs(pt - pset_copy), exponent), axis=0), 1 / exponent\n", "        np.sum(np.power(np.abs(pt - pset_copy), exponent), axis=1), 1 / exponent\n", "R1"),
-    _m("pointset-outer-exponent-fixed", "        np.sum(np.power(np.abs(pt - pset_copy), exponent), axis=0), 1 / exponent\n", "        np.sum(np.power(np.abs(pt - pset_copy), exponent), axis=0), 1 / 2\n", "R1", control=True),
+    _m("pointset-outer-exponent-fixed", "        np.sum(np.power(np.abs(pt - pset_copy), exponent), axis=0), 1 / exponent\n", "        np.sum(np.power(np.abs(pt - pset_copy), exponent), axis=0), 1 / 2\n", "R1"),
     _m("pointset-sum-of-points", "np.abs(pt - pset_copy)", "np.abs(pt + pset_copy)", "R1"),
     _m("pointset-squared-metric", 'd = scidist.cdist(p.T, p.T, "euclidean")', 'd = scidist.cdist(p.T, p.T, "sqeuclidean")', "R1"),
     _m("pointset-points-as-rows", 'd = scidist.cdist(p.T, p.T, "euclidean")', 'd = scidist.cdist(p, p, "euclidean")', "R1"),
     _m("pointset-diagonal-once", "        d += 2 * np.diag(row_max)\n", "        d += np.diag(row_max)\n", "R1"),
     # points_segments
-    _m("points-segments-projection-by-length", "            proj = np.sum(v * line, axis=0) / lengths**2\n", "            proj = np.sum(v * line, axis=0) / lengths\n", "R2", control=True),
+    _m("points-segments-projection-by-length", "            proj = np.sum(v * line, axis=0) / lengths**2\n", "            proj = np.sum(v * line, axis=0) / lengths\n", "R2"),
     _m("points-segments-distance-to-start-for-end-arm", "            d[pi, above] = point_pointset(p[:, pi], end[:, above])\n", "            d[pi, above] = point_pointset(p[:, pi], start[:, above])\n", "R2"),
     _m("points-segments-cp-end-for-start-arm", "            cp[pi, less, :] = np.swapaxes(start[:, less], 1, 0)\n", "            cp[pi, less, :] = np.swapaxes(end[:, less], 1, 0)\n", "R2"),
     _m("points-segments-second-loop-cp-start-for-end-arm", "            cp[above, ei, :] = end[:, ei]\n", "            cp[above, ei, :] = start[:, ei]\n", "R2"),
@@ -853,5 +875,21 @@ MUTANTS = [
     _m("segments-polygon-distance-not-updated", "            md = ds[min_seg]\n", "            pass\n", "R5"),
     # R7
     _m("segments-polygon-start-reshape-dropped", "    if start.size < 4:\n        start = start.reshape((-1, 1))\n    if end.size < 4:\n        end = end.reshape((-1, 1))\n\n    num_p = start.shape[1]\n",
-       "    if start.size < 4:\n        start.reshape((-1, 1))\n    if end.size < 4:\n        end = end.reshape((-1, 1))\n\n    num_p = start.shape[1]\n", "R7", control=True),
+       "    if start.size < 4:\n        start.reshape((-1, 1))\n    if end.size < 4:\n        end = end.reshape((-1, 1))\n\n    num_p = start.shape[1]\n", "R7"),
+    # reverted fixes (94afe82ca, 140734d17, 1ed349282)
+    _m("revert-fix-points-polygon-reshape-dropped", "    if p.size < 4:\n        p = p.reshape((-1, 1))\n\n    num_p = p.shape[1]\n    num_vert = poly.shape[1]\n",
+       "    if p.size < 4:\n        p.reshape((-1, 1))\n\n    num_p = p.shape[1]\n    num_vert = poly.shape[1]\n", "R7", control=True),
+    _m("revert-fix-segment-set", "        if i == ns - 1:\n            # No segments left to compare with.\n            break\n", "", "R6", control=True,
+       ) | {"edits": [dict(file=DI, old="        if i == ns - 1:\n            # No segments left to compare with.\n            break\n", new="", count=1),
+                      dict(file=DI, old="start[:, i + 1 :], end[:, i + 1 :]\n", new="start[:, i + 1 :], end[:, i + 1]\n", count=1),
+                      dict(file=DI, old="        d[i, i + 1 :] = dl\n        d[i + 1 :, i] = dl\n        cp[i, i + 1 :] = cpi.T\n        cp[i + 1 :, i] = cpj.T\n",
+                           new="        dl[i, i + 1 :] = dl\n        dl[i + 1 :, i] = dl\n        cp[i, i + 1 :] = cpi\n        cp[i + 1 :, i] = cpj\n", count=1)]},
+    _m("revert-fix-segments-polygon-in-plane-start-point", "    x0[:, use_end] = end[:, use_end]\n", "", "R5", control=True),
+    # segment_set
+    _m("segment-set-end-single-column", "start[:, i + 1 :], end[:, i + 1 :]\n", "start[:, i + 1 :], end[:, i + 1]\n", "R6"),
+    _m("segment-set-result-into-kernel-output", "        d[i, i + 1 :] = dl\n        d[i + 1 :, i] = dl\n", "        dl[i, i + 1 :] = dl\n        dl[i + 1 :, i] = dl\n", "R6"),
+    _m("segment-set-points-swapped", "        cp[i, i + 1 :] = cpi.T\n        cp[i + 1 :, i] = cpj.T\n", "        cp[i, i + 1 :] = cpj.T\n        cp[i + 1 :, i] = cpi.T\n", "R6"),
+    _m("segment-set-not-symmetric", "        d[i + 1 :, i] = dl\n", "", "R6"),
+    _m("segment-set-diagonal-point-off-segment", "        cp[i, i, :] = start[:, i] + 0.5 * (end[:, i] - start[:, i])\n", "        cp[i, i, :] = start[:, i] + 1.5 * (end[:, i] - start[:, i])\n", "R6"),
+    _m("segment-set-last-pair-skipped", "        if i == ns - 1:\n", "        if i >= ns - 2:\n", "R6"),
 ]
